@@ -1,9 +1,19 @@
 
+val negb : bool -> bool
+
 type nat =
 | O
 | S of nat
 
+type ('a, 'b) sum =
+| Inl of 'a
+| Inr of 'b
+
+val fst : ('a1 * 'a2) -> 'a1
+
 val snd : ('a1 * 'a2) -> 'a2
+
+val app : 'a1 list -> 'a1 list -> 'a1 list
 
 type comparison =
 | Eq
@@ -14,17 +24,34 @@ val compOpp : comparison -> comparison
 
 val add : nat -> nat -> nat
 
+val sub : nat -> nat -> nat
+
 type positive =
 | XI of positive
 | XO of positive
 | XH
+
+type n =
+| N0
+| Npos of positive
 
 type z =
 | Z0
 | Zpos of positive
 | Zneg of positive
 
+val bool_dec : bool -> bool -> bool
+
 val eqb : bool -> bool -> bool
+
+module Nat :
+ sig
+  val eqb : nat -> nat -> bool
+
+  val leb : nat -> nat -> bool
+
+  val ltb : nat -> nat -> bool
+ end
 
 module Pos :
  sig
@@ -79,7 +106,20 @@ module Coq_Pos :
 
   val ggcd : positive -> positive -> positive * (positive * positive)
 
+  val iter_op : ('a1 -> 'a1 -> 'a1) -> positive -> 'a1 -> 'a1
+
+  val to_nat : positive -> nat
+
   val of_succ_nat : nat -> positive
+ end
+
+module N :
+ sig
+  val add : n -> n -> n
+
+  val mul : n -> n -> n
+
+  val to_nat : n -> nat
  end
 
 module Z :
@@ -135,16 +175,38 @@ val zeq_bool : z -> z -> bool
 
 val nth : nat -> 'a1 list -> 'a1 -> 'a1
 
+val map : ('a1 -> 'a2) -> 'a1 list -> 'a2 list
+
+val filter : ('a1 -> bool) -> 'a1 list -> 'a1 list
+
 type ascii =
 | Ascii of bool * bool * bool * bool * bool * bool * bool * bool
 
+val ascii_dec : ascii -> ascii -> bool
+
 val eqb0 : ascii -> ascii -> bool
+
+val n_of_digits : bool list -> n
+
+val n_of_ascii : ascii -> n
+
+val nat_of_ascii : ascii -> nat
 
 type string =
 | EmptyString
 | String of ascii * string
 
 val eqb1 : string -> string -> bool
+
+val append : string -> string -> string
+
+val length : string -> nat
+
+val get : nat -> string -> ascii option
+
+val substring : nat -> nat -> string -> string
+
+val prefix : string -> string -> bool
 
 type q = { qnum : z; qden : positive }
 
@@ -185,17 +247,86 @@ val vOk : v -> v
 
 val getS : v -> string
 
+val getL : v -> v list
+
 val getQ : v -> q
 
 type 'a res =
 | Ok of 'a
 | Err of string
 
+val bind : 'a1 res -> ('a1 -> 'a2 res) -> 'a2 res
+
+val mapM : ('a1 -> 'a2 res) -> 'a1 list -> 'a2 list res
+
+val vres : v res -> v
+
 val qltb : q -> q -> bool
 
 val qleb : q -> q -> bool
 
 val qsqr : q -> q
+
+val nl : ascii
+
+val is_space : ascii -> bool
+
+val is_digit : ascii -> bool
+
+val digit_val : ascii -> z
+
+val lstrip : string -> string
+
+val rev_str : string -> string -> string
+
+val rstrip : string -> string
+
+val strip : string -> string
+
+val slice : nat -> nat -> string -> string
+
+val char_at : nat -> string -> string
+
+val repeat_char : ascii -> nat -> string
+
+val startswith : string -> string -> bool
+
+val str_nonempty : string -> bool
+
+val is_substring : string -> string -> bool
+
+val upto_nl : string -> string
+
+val split_nl_aux : string -> string -> string list
+
+val split_nl : string -> string list
+
+val readlines_aux : string -> string -> string list
+
+val readlines : string -> string list
+
+val count_sub_aux : nat -> string -> string -> nat
+
+val count_sub : string -> string -> nat
+
+val all_digits : string -> bool
+
+val digits_val : z -> string -> z
+
+type 'a numparse =
+| NumOk of 'a
+| NumBad
+| NumOutOfModel
+
+val has_char : ascii -> string -> bool
+
+val exotic_numeral : string -> bool
+
+val split_sign : string -> bool * string
+
+val parse_int : string -> z numparse
+
+val split_dot : string -> string * string option
 
 val qfloor' : q -> z
 
@@ -207,7 +338,25 @@ val b64 : q -> q
 
 val pow10 : nat -> z
 
+val parse_float : string -> q numparse
+
 val round_dec : nat -> q -> q
+
+val repeat_str : string -> nat -> string
+
+type blank_default =
+| DConst of q
+| DChainFromSegID
+| DElementGuess
+
+type val0 =
+| VInt of z
+| VReal of q
+| VText of string
+| VBlob
+| VNull
+
+type row = val0 list
 
 val capri_src : q -> q -> q -> string -> string res
 
@@ -244,6 +393,93 @@ val levelb : nat -> q -> q -> q -> bool
 val capri_spec : q -> q -> q -> capri_class
 
 val dockq_formula : q -> q -> q -> q -> q -> q
+
+val col_src : (string * string) list
+
+val delimiter_src : (string * (nat * nat)) list
+
+val atom_prefix_src : string
+
+val endmdl_prefix_src : string
+
+val int_tag_src : string
+
+val real_tag_src : string
+
+val blank_defaults_src : (string * blank_default) list
+
+val linelength_src : string -> string res
+
+val get_chainID_src : string -> string res
+
+val get_element_src : string -> string res
+
+type form =
+| FPath
+| FPathObj
+| FStr
+| FBytes
+| FListStr
+| FListBytes
+| FNdarrayStr
+| FNdarrayBytes
+
+type input =
+| InText of form * string
+| InLines of form * string list
+
+val lines_of : input -> string list res
+
+val assoc : string -> (string * 'a1) list -> 'a1 option
+
+val parse_field : string -> string -> string -> val0 option res
+
+val parse_fields : string -> (string * string) list -> val0 list res
+
+val parse_record : z -> string -> row res
+
+val parse_lines : string list -> z -> (row list * z) res
+
+val parse : input -> (row list * z) res
+
+type ftype =
+| TInt
+| TReal
+| TText
+
+val wwpdb_cols : ((string * (nat * nat)) * ftype) list
+
+val segid_cols : nat * nat
+
+val pad80 : string -> string
+
+val columns : nat -> nat -> string -> string
+
+val column : nat -> string -> ascii
+
+val ltrim : string -> string
+
+val trim : string -> string
+
+val spec_element : string -> string
+
+val spec_field : string -> ((string * (nat * nat)) * ftype) -> val0 res
+
+val spec_row : string -> row res
+
+val is_ATOM : string -> bool
+
+val spec_table : string list -> row list res
+
+val vval : val0 -> v
+
+val vrow : row -> v
+
+val vrows : row list -> v
+
+val form_of : string -> form
+
+val run_parse : string -> v list -> v option
 
 val vresS : string res -> v
 
